@@ -38,6 +38,8 @@ func run(c *Ctx) {
 		for _, o := range []ml.Outcome{
 			ml.ScLostWakeup(false, hevc), ml.ScLostWakeup(true, hevc),
 			ml.ScAttachAfterClose(hevc), ml.ScAttachDuringClose(hevc),
+			ml.ScAttachAfterEnd("replaced", false, hevc), ml.ScAttachAfterEnd("replaced", true, hevc),
+			ml.ScAttachAfterEnd("unregistered", false, hevc), ml.ScAttachAfterEnd("closed", true, hevc),
 			ml.ScCounterRace(false, hevc), ml.ScCounterRace(true, hevc),
 			ml.ScCloseDuringJoin(false, hevc), ml.ScCloseDuringJoin(true, hevc),
 		} {
